@@ -1134,6 +1134,11 @@ func (g *GoFakeS3) ensureBucketExists(bucket string) error {
 		return err
 	}
 	if !exists && g.autoBucket {
+		// The same rule as for a bucket that is created explicitly, otherwise
+		// any request makes a bucket named "Bad_Name", or "", come to exist:
+		if err := ValidateBucketName(bucket); err != nil {
+			return err
+		}
 		if err := g.storage.CreateBucket(bucket); err != nil {
 			g.log.Print(LogErr, "autobucket create failed:", err)
 			return ResourceError(ErrNoSuchBucket, bucket)
